@@ -236,13 +236,25 @@ func scenario(c Case) *core.Violation {
 		wg.Add(1)
 		go func() {
 			defer wg.Done()
+			var scratch []byte
 			for _, p := range writes[w] {
 				if c.Writers[w].EmptyWrites {
 					if n, err := wio.Write(nil); n != 0 || err != nil {
 						werr.Store(fmt.Sprintf("Write(nil) = %d, %v", n, err))
 					}
 				}
-				n, err := wio.Write(p)
+				// write from a scratch buffer and scribble over it as soon
+				// as Write returns, as any io.Copy-style producer reusing its
+				// buffer does: a pipe must not retain the caller's slice
+				if cap(scratch) < len(p) {
+					scratch = make([]byte, len(p))
+				}
+				buf := scratch[:len(p)]
+				copy(buf, p)
+				n, err := wio.Write(buf)
+				for i := range buf {
+					buf[i] ^= 0xff
+				}
 				if len(p) > 0 && (n != len(p) || err != nil) {
 					werr.Store(fmt.Sprintf("Write of %d bytes returned %d, %v", len(p), n, err))
 				}
